@@ -3,6 +3,9 @@ package main
 // Helpers shared by rules_c05.go, rules_c17.go and rules_c20.go (one author, three properties):
 //   - cell provenance through captured variables (Alloc cells written in closures, FreeVars),
 //   - joint edge dominance ("every path passes one of these edges"),
+//   - frames: an anchored function seen together with the same-package helpers it calls (values
+//     resolved through parameters and results, paths in the inlined control flow graph) — what makes
+//     the rules indifferent to extract-helper / inline / local-boolean refactorings,
 //   - a tiny conditional-constant-propagation interpreter over SSA used for finite table
 //     extraction (C05-R3). It interprets the analysed function's SSA inside the checker; no
 //     repository code is compiled or run.
@@ -225,27 +228,6 @@ func c05passesOneOf(fn *ssa.Function, edges []Edge, in ssa.Instruction) (bool, [
 	}
 	p := findPath(entryPoint(fn), Target{Instr: in}, newCuts().AddEdges(edges...))
 	return p == nil, p
-}
-
-// c05eqEdges: for an If whose condition is X ==/!= Y returns the edge on which they are equal and
-// the edge on which they differ.
-func c05eqEdges(b *ssa.BasicBlock) (a Atom, eq, ne Edge, ok bool) {
-	ifi := blockIf(b)
-	if ifi == nil {
-		return
-	}
-	a = condAtom(ifi.Cond)
-	if a.Op != token.EQL && a.Op != token.NEQ {
-		return
-	}
-	isEq := a.Op == token.EQL
-	if a.Neg {
-		isEq = !isEq
-	}
-	if isEq {
-		return a, Edge{b, 0}, Edge{b, 1}, true
-	}
-	return a, Edge{b, 1}, Edge{b, 0}, true
 }
 
 // c05returns lists fn's Return instructions.
@@ -488,4 +470,936 @@ func (ip *c05interp) eval(fn *ssa.Function, args []c05Val, depth int) (c05Val, s
 		}
 		prev, b = b, next
 	}
+}
+
+// ---------------------------------------------------------------------------
+// Frames: an anchored function seen together with the same-package helpers it calls.
+//
+// A rule that looks for a check / store / call "in function f" must keep finding it when a
+// contributor extracts it into an unexported helper, inlines a helper, or materialises a condition in
+// a local boolean. The rules of C05/C17/C20 therefore do not search one SSA function but the tree of
+// frames below the anchored function: a frame is a function together with the chain of call sites that
+// leads to it from the root (full call-site context, depth <= c05MaxDepth, no recursion, static callees
+// of the root's package only; functions in the stop set are anchors judged by their own rule and stay
+// atomic calls). Values are resolved through frames (a helper's parameter denotes the caller's
+// argument, a helper's result denotes what it returns) and paths are searched in the inlined control
+// flow graph (c05path), which keeps call and return matched and decides a branch on a helper's result
+// by the return statement the path came through.
+
+const c05MaxDepth = 4
+
+type c05Frame struct {
+	p      *Prog
+	fn     *ssa.Function
+	call   ssa.CallInstruction // the call in parent.fn this frame expands (nil for the root); paths enter plain calls only
+	parent *c05Frame
+	depth  int
+	stop   map[*ssa.Function]bool
+	kids   map[ssa.CallInstruction]*c05Frame // memo; a nil entry means "not followed"
+}
+
+// c05rootFrame makes the root frame of fn; stop lists callees that are never expanded.
+func (p *Prog) c05rootFrame(fn *ssa.Function, stop ...*ssa.Function) *c05Frame {
+	return &c05Frame{p: p, fn: fn, stop: fnSet(stop...), kids: map[ssa.CallInstruction]*c05Frame{}}
+}
+
+func (fr *c05Frame) root() *c05Frame {
+	for fr.parent != nil {
+		fr = fr.parent
+	}
+	return fr
+}
+
+// c05pkgOf: the package a function belongs to (bound-method wrappers and thunks: that of the method).
+func c05pkgOf(f *ssa.Function) *types.Package {
+	if pk := fnPkg(f); pk != nil {
+		return pk
+	}
+	if o := f.Object(); o != nil {
+		return o.Pkg()
+	}
+	return nil
+}
+
+// kid returns the frame of call's callee when it is a helper the rules follow, else nil.
+func (fr *c05Frame) kid(call *ssa.Call) *c05Frame {
+	if call == nil {
+		return nil
+	}
+	return fr.kidAny(call)
+}
+
+// kidAny is kid for any call instruction (also defer and go: used to resolve values, never entered by paths).
+func (fr *c05Frame) kidAny(call ssa.CallInstruction) *c05Frame {
+	if call == nil || call.Parent() != fr.fn {
+		return nil
+	}
+	if k, ok := fr.kids[call]; ok {
+		return k
+	}
+	var k *c05Frame
+	g := call.Common().StaticCallee()
+	if g != nil && g.Blocks != nil && fr.depth < c05MaxDepth && !fr.stop[g] && c05pkgOf(g) != nil && c05pkgOf(g) == c05pkgOf(fr.root().fn) {
+		rec := false
+		for f := fr; f != nil; f = f.parent {
+			if f.fn == g {
+				rec = true
+			}
+		}
+		if !rec {
+			k = &c05Frame{p: fr.p, fn: g, call: call, parent: fr, depth: fr.depth + 1, stop: fr.stop, kids: map[ssa.CallInstruction]*c05Frame{}}
+		}
+	}
+	fr.kids[call] = k
+	return k
+}
+
+// all lists fr and every frame below it (preorder, in instruction order).
+func (fr *c05Frame) all() []*c05Frame {
+	out := []*c05Frame{fr}
+	allInstrs(fr.fn, func(_ *ssa.BasicBlock, _ int, in ssa.Instruction) {
+		if call, ok := in.(*ssa.Call); ok {
+			if k := fr.kid(call); k != nil {
+				out = append(out, k.all()...)
+			}
+		}
+	})
+	return out
+}
+
+// allAny is all, but also follows deferred and go'ed static callees (for value resolution only).
+func (fr *c05Frame) allAny() []*c05Frame {
+	out := []*c05Frame{fr}
+	allInstrs(fr.fn, func(_ *ssa.BasicBlock, _ int, in ssa.Instruction) {
+		if call, ok := in.(ssa.CallInstruction); ok {
+			if k := fr.kidAny(call); k != nil {
+				out = append(out, k.allAny()...)
+			}
+		}
+	})
+	return out
+}
+
+// c05V is an SSA value together with the frame it lives in (nil for constants, globals, functions).
+type c05V struct {
+	v  ssa.Value
+	fr *c05Frame
+}
+
+// home finds the frame (fr or an ancestor) whose function defines v.
+func (fr *c05Frame) home(v ssa.Value) *c05Frame {
+	var pf *ssa.Function
+	switch x := v.(type) {
+	case *ssa.Parameter:
+		pf = x.Parent()
+	case *ssa.FreeVar:
+		pf = x.Parent()
+	case ssa.Instruction:
+		pf = x.Parent()
+	default:
+		return nil
+	}
+	for f := fr; f != nil; f = f.parent {
+		if f.fn == pf {
+			return f
+		}
+	}
+	return fr
+}
+
+func c05paramIndex(fn *ssa.Function, p *ssa.Parameter) int {
+	for i, q := range fn.Params {
+		if q == p {
+			return i
+		}
+	}
+	return -1
+}
+
+// c05resultOf: v is result #idx of call (the call itself when it has one result, or an Extract).
+func c05resultOf(v ssa.Value) (*ssa.Call, int) {
+	switch x := v.(type) {
+	case *ssa.Call:
+		if _, isTuple := x.Type().(*types.Tuple); !isTuple {
+			return x, 0
+		}
+	case *ssa.Extract:
+		if c, ok := x.Tuple.(*ssa.Call); ok {
+			return c, x.Index
+		}
+	}
+	return nil, -1
+}
+
+// res resolves v as seen from frame fr: conversions and single-assignment cells (c05resolve), a
+// helper's parameter to the caller's argument, a bound receiver to the value it was bound to, and the
+// result of a followed helper to the value it returns when all its returns agree.
+func (fr *c05Frame) res(v ssa.Value) c05V {
+	cur := fr
+	for i := 0; i < 48 && v != nil; i++ {
+		v = c05resolve(v)
+		if h := cur.home(v); h != nil {
+			cur = h
+		}
+		switch x := v.(type) {
+		case *ssa.Parameter:
+			if cur.fn == x.Parent() && cur.parent != nil {
+				if idx := c05paramIndex(cur.fn, x); idx >= 0 && idx < len(cur.call.Common().Args) {
+					v, cur = cur.call.Common().Args[idx], cur.parent
+					continue
+				}
+			}
+		case *ssa.FreeVar:
+			if cur.fn == x.Parent() && cur.parent != nil {
+				if mc, ok := c05resolve(cur.call.Common().Value).(*ssa.MakeClosure); ok {
+					done := false
+					for j, fv := range cur.fn.FreeVars {
+						if fv == x && j < len(mc.Bindings) {
+							v, cur = mc.Bindings[j], cur.parent
+							done = true
+						}
+					}
+					if done {
+						continue
+					}
+				}
+			}
+		default:
+			if call, idx := c05resultOf(v); call != nil {
+				if k := cur.kid(call); k != nil {
+					if r, ok := k.soleResult(idx); ok {
+						v, cur = r.v, r.fr
+						if cur == nil {
+							cur = k
+						}
+						continue
+					}
+				}
+			}
+		}
+		break
+	}
+	return c05V{v, cur.home(v)}
+}
+
+// retVals lists, per return statement of the frame's function, result #idx (phi operands of the
+// return block split per incoming edge).
+type c05Ret struct {
+	ret  *ssa.Return
+	pred *ssa.BasicBlock
+	val  ssa.Value
+}
+
+func (fr *c05Frame) retVals(idx int) []c05Ret {
+	var out []c05Ret
+	for _, r := range c05returns(fr.fn) {
+		if idx >= len(r.Results) {
+			continue
+		}
+		v := r.Results[idx]
+		if phi, ok := v.(*ssa.Phi); ok && phi.Block() == r.Block() {
+			for i, e := range phi.Edges {
+				out = append(out, c05Ret{r, r.Block().Preds[i], e})
+			}
+			continue
+		}
+		out = append(out, c05Ret{r, nil, v})
+	}
+	return out
+}
+
+func (fr *c05Frame) soleResult(idx int) (c05V, bool) {
+	var got c05V
+	n := 0
+	for _, r := range fr.retVals(idx) {
+		x := fr.res(r.val)
+		if n > 0 && x != got {
+			return c05V{}, false
+		}
+		got = x
+		n++
+	}
+	return got, n > 0
+}
+
+// origins lists the leaf values v may carry as seen from fr: like res, but phis, multiply assigned
+// local cells and helpers with several returns contribute all their alternatives.
+func (fr *c05Frame) origins(v ssa.Value) []c05V {
+	var out []c05V
+	seen := map[c05V]bool{}
+	var walk func(f *c05Frame, v ssa.Value, d int)
+	walk = func(f *c05Frame, v ssa.Value, d int) {
+		x := f.res(v)
+		if seen[x] {
+			return
+		}
+		seen[x] = true
+		xf := x.fr
+		if xf == nil {
+			xf = f
+		}
+		if d < 24 {
+			switch y := x.v.(type) {
+			case *ssa.Phi:
+				for _, e := range y.Edges {
+					walk(xf, e, d+1)
+				}
+				return
+			case *ssa.UnOp:
+				if y.Op == token.MUL {
+					if cell, ok := c05cellOf(y.X); ok {
+						if _, isStruct := cell.Type().Underlying().(*types.Pointer).Elem().Underlying().(*types.Struct); !isStruct && !c05cellEscapes(cell) {
+							if st := c05cellStores(cell); len(st) > 0 {
+								for _, s := range st {
+									walk(xf, s.Val, d+1)
+								}
+								return
+							}
+						}
+					}
+				}
+			default:
+				if call, idx := c05resultOf(x.v); call != nil {
+					if k := xf.kid(call); k != nil {
+						rs := k.retVals(idx)
+						for _, r := range rs {
+							walk(k, r.val, d+1)
+						}
+						if len(rs) > 0 {
+							return
+						}
+					}
+				}
+			}
+		}
+		out = append(out, x)
+	}
+	walk(fr, v, 0)
+	return out
+}
+
+// c05nonNilOrigins: the values other than nil that v may carry, seen from fr.
+func c05nonNilOrigins(fr *c05Frame, v ssa.Value) []c05V {
+	var out []c05V
+	for _, o := range fr.origins(v) {
+		if !isNilConst(o.v) {
+			out = append(out, o)
+		}
+	}
+	return out
+}
+
+// calls lists the static calls of any of objs in the frames below (and including) fr.
+type c05Call struct {
+	fr   *c05Frame
+	call *ssa.Call
+}
+
+func (fr *c05Frame) calls(objs ...types.Object) []c05Call {
+	var out []c05Call
+	for _, f := range fr.all() {
+		for _, cs := range callsIn(f.fn, objs...) {
+			if cl, ok := cs.(*ssa.Call); ok {
+				out = append(out, c05Call{f, cl})
+			}
+		}
+	}
+	return out
+}
+
+// allAnyCalls is calls over allAny: also calls made with go / defer and inside followed go'ed closures.
+type c05AnyCall struct {
+	fr   *c05Frame
+	call ssa.CallInstruction
+}
+
+func (fr *c05Frame) allAnyCalls(objs ...types.Object) []c05AnyCall {
+	var out []c05AnyCall
+	for _, f := range fr.allAny() {
+		for _, cs := range callsIn(f.fn, objs...) {
+			out = append(out, c05AnyCall{f, cs})
+		}
+	}
+	return out
+}
+
+// ---------------------------------------------------------------------------
+// tests: what a branch decides
+
+// c05Test describes one outcome of a branch: boolean value v has the given truth. When v is a
+// comparison with nil, x is the compared value and isNil tells whether it is nil on this outcome.
+type c05Test struct {
+	v      c05V
+	truth  bool
+	hasNil bool
+	x      c05V
+	xs     []c05V // x resolved path-sensitively (through the return a followed helper took), plus x itself
+	isNil  bool
+}
+
+// c05Fact says whether an outcome of a branch establishes the fact a rule is looking for.
+type c05Fact func(t c05Test) bool
+
+func c05anyFact(fs ...c05Fact) c05Fact {
+	return func(t c05Test) bool {
+		for _, f := range fs {
+			if f != nil && f(t) {
+				return true
+			}
+		}
+		return false
+	}
+}
+
+// c05eqTest: v is "X == Y" or "X != Y"; eqWhenTrue tells which.
+func c05eqTest(v ssa.Value) (x, y ssa.Value, eqWhenTrue, ok bool) {
+	b, isB := v.(*ssa.BinOp)
+	if !isB || (b.Op != token.EQL && b.Op != token.NEQ) {
+		return nil, nil, false, false
+	}
+	return b.X, b.Y, b.Op == token.EQL, true
+}
+
+func c05mkTest(v c05V, truth bool) c05Test {
+	t := c05Test{v: v, truth: truth}
+	if x, y, eq, ok := c05eqTest(v.v); ok {
+		if isNilConst(x) {
+			x, y = y, x
+		}
+		if isNilConst(y) {
+			t.hasNil, t.isNil = true, eq == truth
+			t.x = c05V{x, v.fr}
+			t.xs = []c05V{t.x}
+		}
+	}
+	return t
+}
+
+// errCalls: the calls whose (error) result the value x may carry: x itself, the stores into a local
+// cell x is loaded from (may-alias, as nilEdges/aliases do), seen through frames.
+func c05carriedCalls(x c05V) []c05Call {
+	var out []c05Call
+	if x.fr == nil {
+		return nil
+	}
+	add := func(v ssa.Value, f *c05Frame) {
+		r := f.res(v)
+		if call, _ := c05resultOf(r.v); call != nil && r.fr != nil {
+			out = append(out, c05Call{r.fr, call})
+		}
+	}
+	add(x.v, x.fr)
+	if ld, ok := x.v.(*ssa.UnOp); ok && ld.Op == token.MUL {
+		if cell, ok := c05cellOf(ld.X); ok {
+			for _, st := range c05cellStores(cell) {
+				add(st.Val, x.fr)
+			}
+		}
+	}
+	for a := range aliasesRev(x.v) {
+		add(a, x.fr)
+	}
+	return out
+}
+
+// aliasesRev: the values x is a plain conversion of.
+func aliasesRev(x ssa.Value) map[ssa.Value]bool {
+	out := map[ssa.Value]bool{}
+	for i := 0; i < 8; i++ {
+		switch y := x.(type) {
+		case *ssa.ChangeType:
+			x = y.X
+		case *ssa.ChangeInterface:
+			x = y.X
+		default:
+			return out
+		}
+		out[x] = true
+	}
+	return out
+}
+
+// c05factErrNil: the nil-error outcome of a call accepted by match.
+func c05factErrNil(match func(c c05Call) bool) c05Fact {
+	return c05factNilOfCall(true, match)
+}
+
+func c05factNilOfCall(wantNil bool, match func(c c05Call) bool) c05Fact {
+	return func(t c05Test) bool {
+		if !t.hasNil || t.isNil != wantNil {
+			return false
+		}
+		for _, x := range t.xs {
+			for _, c := range c05carriedCalls(x) {
+				if match(c) {
+					return true
+				}
+			}
+		}
+		return false
+	}
+}
+
+// c05factBool: boolean value accepted by match has truth want.
+func c05factBool(want bool, match func(v c05V) bool) c05Fact {
+	return func(t c05Test) bool {
+		if t.truth != want || t.v.fr == nil {
+			return false
+		}
+		return match(t.v.fr.res(t.v.v))
+	}
+}
+
+// ---------------------------------------------------------------------------
+// paths in the inlined control flow graph
+
+type c05FE struct {
+	fr *c05Frame
+	e  Edge
+}
+type c05FI struct {
+	fr *c05Frame
+	in ssa.Instruction
+}
+
+// c05Cuts: what a path may not pass: explicit edges / instructions of a frame, and every branch
+// outcome that establishes one of the facts.
+type c05Cuts struct {
+	edges  map[c05FE]bool
+	instrs map[c05FI]bool
+	facts  []c05Fact
+	used   int // how often a cut stopped the search (0 after a search = the cuts played no role)
+}
+
+func c05newCuts(facts ...c05Fact) *c05Cuts {
+	return &c05Cuts{edges: map[c05FE]bool{}, instrs: map[c05FI]bool{}, facts: facts}
+}
+
+func (c *c05Cuts) addInstr(fr *c05Frame, in ssa.Instruction) *c05Cuts {
+	c.instrs[c05FI{fr, in}] = true
+	return c
+}
+
+// c05Pt is a position: before instruction idx of block b in frame fr, the block having been entered
+// from via (nil = unknown).
+type c05Pt struct {
+	fr  *c05Frame
+	b   *ssa.BasicBlock
+	idx int
+	via *ssa.BasicBlock
+}
+
+func c05entryPt(fr *c05Frame) c05Pt { return c05Pt{fr: fr, b: fr.fn.Blocks[0]} }
+
+func c05afterPt(fr *c05Frame, in ssa.Instruction) c05Pt {
+	p := after(in)
+	return c05Pt{fr: fr, b: p.Block, idx: p.Idx}
+}
+
+// c05edgePt: just after taking successor succ of block b.
+func c05edgePt(fr *c05Frame, b *ssa.BasicBlock, succ int) c05Pt {
+	return c05Pt{fr: fr, b: b.Succs[succ], via: b}
+}
+
+// c05Tg is the target of a search: an instruction of a frame (pred: the block its block is entered from).
+type c05Tg struct {
+	fr   *c05Frame
+	in   ssa.Instruction
+	pred *ssa.BasicBlock
+	// optional: the target counts only when this boolean value (an operand of in, e.g. a returned
+	// condition) may be true / this value may be nil on the path, and being so does not itself
+	// establish one of the cut facts
+	ifTrue   ssa.Value
+	ifNil    ssa.Value
+	ifNonNil ssa.Value
+}
+
+type c05St struct {
+	fr   *c05Frame
+	b    *ssa.BasicBlock
+	idx  int
+	vias [c05MaxDepth + 2]*ssa.BasicBlock // per frame depth: the block the current block was entered from
+	rn   *c05RetNode                      // the followed call of this frame the path returned from last
+}
+
+// c05RetNode: the path returned from the followed call `call` through return `ret`, whose block was
+// entered from pred; inner is the same information for the callee at the moment it returned (so a
+// result handed up through several helpers is still resolved). Nodes are interned per search.
+type c05RetNode struct {
+	call  *ssa.Call
+	ret   *ssa.Return
+	pred  *ssa.BasicBlock
+	inner *c05RetNode
+}
+
+// c05nilness: +1 v is nil, -1 v is not nil, 0 unknown (v at the end of block at of fr.fn).
+func c05nilness(fr *c05Frame, v ssa.Value, at *ssa.BasicBlock) int {
+	if isNilConst(v) {
+		return 1
+	}
+	switch v.(type) {
+	case *ssa.Alloc, *ssa.MakeInterface, *ssa.MakeClosure, *ssa.MakeMap, *ssa.MakeChan, *ssa.MakeSlice, *ssa.FieldAddr, *ssa.IndexAddr, *ssa.Function:
+		return -1
+	}
+	if isErrorType(v.Type()) && fr.p.classifyErr(fr.fn, v, at, 0) == "error" {
+		return -1
+	}
+	return 0
+}
+
+// operand: result #idx of the return the path came through (phi split by pred).
+func (n *c05RetNode) operand(idx int) (ssa.Value, bool) {
+	if n == nil || idx < 0 || idx >= len(n.ret.Results) {
+		return nil, false
+	}
+	v := n.ret.Results[idx]
+	if phi, ok := v.(*ssa.Phi); ok && phi.Block() == n.ret.Block() {
+		if n.pred == nil {
+			return nil, false
+		}
+		for i, p := range phi.Block().Preds {
+			if p == n.pred {
+				return phi.Edges[i], true
+			}
+		}
+		return nil, false
+	}
+	return v, true
+}
+
+// c05follow: when v (of frame cf) is a result of the followed call the path last returned from, steps
+// into that callee: the operand of the return taken, the callee's frame and its own return node.
+func c05follow(v ssa.Value, cf *c05Frame, rn *c05RetNode) (ssa.Value, *c05Frame, *c05RetNode, bool) {
+	if rn == nil || cf == nil {
+		return v, cf, rn, false
+	}
+	call, idx := c05resultOf(c05resolve(v))
+	if call == nil || call != rn.call {
+		return v, cf, rn, false
+	}
+	rv, ok := rn.operand(idx)
+	k := cf.kid(call)
+	if !ok || k == nil {
+		return v, cf, rn, false
+	}
+	return rv, k, rn.inner, true
+}
+
+// c05branch resolves the condition of the If ending s.b on this path: strips negations, replaces a
+// boolean phi of this block by the operand of the edge the path came in through and the result of the
+// helper the path just returned from by the operand of the return it took. It returns the forms the
+// condition takes (each with its negation), and the successor forced when the outcome is known.
+type c05Form struct {
+	v   c05V
+	neg bool
+}
+
+func (s *c05St) branch(cond ssa.Value) (forms []c05Form, xs []c05V, forced int) {
+	forced = -1
+	cf, rn, neg := s.fr, s.rn, false
+	for step := 0; step < 12; step++ {
+		for {
+			u, ok := cond.(*ssa.UnOp)
+			if !ok || u.Op != token.NOT {
+				break
+			}
+			neg, cond = !neg, u.X
+		}
+		forms = append(forms, c05Form{c05V{cond, cf}, neg})
+		if phi, ok := cond.(*ssa.Phi); ok && cf == s.fr && phi.Block() == s.b {
+			via := s.vias[s.fr.depth]
+			found := false
+			for i, p := range s.b.Preds {
+				if p == via && via != nil {
+					cond, found = phi.Edges[i], true
+				}
+			}
+			if found {
+				continue
+			}
+			break
+		}
+		if v, f, n, moved := c05follow(cond, cf, rn); moved {
+			cond, cf, rn = v, f, n
+			continue
+		}
+		break
+	}
+	last := forms[len(forms)-1]
+	if bv, isC := constBool(last.v.v); isC {
+		if bv != last.neg {
+			forced = 0
+		} else {
+			forced = 1
+		}
+		return
+	}
+	// comparison with nil of a result of the helper the path just returned from
+	if x, y, eq, ok := c05eqTest(last.v.v); ok {
+		if isNilConst(x) {
+			x, y = y, x
+		}
+		if isNilConst(y) {
+			xf := last.v.fr
+			var at *ssa.BasicBlock
+			for {
+				v, f, n, moved := c05follow(x, xf, rn)
+				if !moved {
+					break
+				}
+				at = rn.ret.Block()
+				x, xf, rn = v, f, n
+				xs = append(xs, xf.res(x))
+			}
+			if at != nil {
+				if n := c05nilness(xf, x, at); n != 0 {
+					truth := (n > 0) == eq
+					if truth != last.neg {
+						forced = 0
+					} else {
+						forced = 1
+					}
+				}
+			}
+		}
+	}
+	return
+}
+
+// valNilness: nil-ness of value v of the state's frame on this path (through the returns taken).
+func (s *c05St) valNilness(v ssa.Value) int {
+	if phi, ok := v.(*ssa.Phi); ok && phi.Block() == s.b {
+		for i, p := range s.b.Preds {
+			if p == s.vias[s.fr.depth] && p != nil {
+				v = phi.Edges[i]
+			}
+		}
+	}
+	xf, rn := s.fr, s.rn
+	at := s.b
+	for {
+		x, f, n, moved := c05follow(v, xf, rn)
+		if !moved {
+			break
+		}
+		at = rn.ret.Block()
+		v, xf, rn = x, f, n
+	}
+	return c05nilness(xf, v, at)
+}
+
+// counts: the optional value condition of the target holds on the path that reached it.
+func (s *c05St) counts(tg c05Tg, cuts *c05Cuts) bool {
+	if tg.ifTrue != nil {
+		forms, _, forced := s.branch(tg.ifTrue)
+		if forced == 1 {
+			return false
+		}
+		for _, f := range forms {
+			t := c05mkTest(f.v, !f.neg)
+			for _, fact := range cuts.facts {
+				if fact != nil && fact(t) {
+					cuts.used++
+					return false
+				}
+			}
+		}
+	}
+	if tg.ifNonNil != nil && s.valNilness(tg.ifNonNil) > 0 {
+		return false
+	}
+	if tg.ifNil != nil && s.valNilness(tg.ifNil) < 0 {
+		return false
+	}
+	return true
+}
+
+// c05path searches a path from start to the target in the inlined graph that passes no cut. It
+// returns the blocks of a shortest such path, or nil.
+func c05path(start c05Pt, tg c05Tg, cuts *c05Cuts) []*ssa.BasicBlock {
+	if cuts == nil {
+		cuts = c05newCuts()
+	}
+	parent := map[c05St]c05St{}
+	seen := map[c05St]bool{}
+	nodes := map[c05RetNode]*c05RetNode{}
+	intern := func(n c05RetNode) *c05RetNode {
+		if p, ok := nodes[n]; ok {
+			return p
+		}
+		p := &n
+		nodes[n] = p
+		return p
+	}
+	var queue []c05St
+	push := func(from, to c05St, isRoot bool) {
+		if seen[to] {
+			return
+		}
+		seen[to] = true
+		if !isRoot {
+			parent[to] = from
+		}
+		queue = append(queue, to)
+	}
+	s0 := c05St{fr: start.fr, b: start.b, idx: start.idx}
+	s0.vias[start.fr.depth] = start.via
+	push(c05St{}, s0, true)
+	build := func(s c05St) []*ssa.BasicBlock {
+		var path []*ssa.BasicBlock
+		for {
+			if len(path) == 0 || path[len(path)-1] != s.b {
+				path = append(path, s.b)
+			}
+			nx, ok := parent[s]
+			if !ok {
+				break
+			}
+			s = nx
+		}
+		for i, j := 0, len(path)-1; i < j; i, j = i+1, j-1 {
+			path[i], path[j] = path[j], path[i]
+		}
+		return path
+	}
+	for len(queue) > 0 {
+		s := queue[0]
+		queue = queue[1:]
+		via := s.vias[s.fr.depth]
+		blocked, entered := false, false
+		for i := s.idx; i < len(s.b.Instrs) && !blocked && !entered; i++ {
+			in := s.b.Instrs[i]
+			if s.fr == tg.fr && in == tg.in && (tg.pred == nil || tg.pred == via) && s.counts(tg, cuts) {
+				return build(s)
+			}
+			if cuts.instrs[c05FI{s.fr, in}] {
+				cuts.used++
+				blocked = true
+				break
+			}
+			if call, ok := in.(*ssa.Call); ok {
+				if k := s.fr.kid(call); k != nil {
+					n := c05St{fr: k, b: k.fn.Blocks[0], vias: s.vias}
+					n.vias[k.depth] = nil
+					push(s, n, false)
+					entered = true
+				}
+			}
+		}
+		if blocked || entered || len(s.b.Instrs) == 0 {
+			continue
+		}
+		switch x := s.b.Instrs[len(s.b.Instrs)-1].(type) {
+		case *ssa.If:
+			forms, xs, forced := s.branch(x.Cond)
+			for i, succ := range s.b.Succs {
+				if forced >= 0 && i != forced {
+					continue
+				}
+				if cuts.edges[c05FE{s.fr, Edge{s.b, i}}] {
+					cuts.used++
+					continue
+				}
+				cut := false
+				for _, f := range forms {
+					t := c05mkTest(f.v, (i == 0) != f.neg)
+					if t.hasNil {
+						t.xs = append(t.xs, xs...)
+					}
+					for _, fact := range cuts.facts {
+						if fact != nil && fact(t) {
+							cut = true
+						}
+					}
+				}
+				if cut {
+					cuts.used++
+					continue
+				}
+				n := c05St{fr: s.fr, b: succ, vias: s.vias, rn: s.rn}
+				n.vias[s.fr.depth] = s.b
+				push(s, n, false)
+			}
+		case *ssa.Jump:
+			if cuts.edges[c05FE{s.fr, Edge{s.b, 0}}] {
+				cuts.used++
+				continue
+			}
+			n := c05St{fr: s.fr, b: s.b.Succs[0], vias: s.vias, rn: s.rn}
+			n.vias[s.fr.depth] = s.b
+			push(s, n, false)
+		case *ssa.Return:
+			if s.fr.parent == nil {
+				continue
+			}
+			pt := after(s.fr.call)
+			pcall, _ := s.fr.call.(*ssa.Call)
+			n := c05St{fr: s.fr.parent, b: pt.Block, idx: pt.Idx, vias: s.vias, rn: intern(c05RetNode{pcall, x, via, s.rn})}
+			n.vias[s.fr.depth] = nil
+			push(s, n, false)
+		}
+	}
+	return nil
+}
+
+// c05dominated: every path from the root's entry to the target passes a cut — and the cuts mattered
+// (the target is reachable at all).
+func c05dominated(tg c05Tg, cuts *c05Cuts) (bool, []*ssa.BasicBlock) {
+	p := c05path(c05entryPt(tg.fr.root()), tg, cuts)
+	if p != nil {
+		return false, p
+	}
+	return cuts.used > 0, nil
+}
+
+// c05staticTests lists the outcomes decided by the If ending block b of frame fr, without a path:
+// the condition itself and, when it is a boolean phi of that block, each incoming operand.
+type c05Outcome struct {
+	t    c05Test
+	succ int
+}
+
+func c05staticTests(fr *c05Frame, b *ssa.BasicBlock) []c05Outcome {
+	ifi := blockIf(b)
+	if ifi == nil {
+		return nil
+	}
+	var out []c05Outcome
+	seen := map[c05V]bool{}
+	var add func(f *c05Frame, v ssa.Value, neg bool, d int)
+	add = func(f *c05Frame, v ssa.Value, neg bool, d int) {
+		for {
+			u, ok := v.(*ssa.UnOp)
+			if !ok || u.Op != token.NOT {
+				break
+			}
+			neg, v = !neg, u.X
+		}
+		if _, isC := constBool(v); isC || seen[c05V{v, f}] || d > 6 {
+			return
+		}
+		seen[c05V{v, f}] = true
+		for succ := 0; succ < 2; succ++ {
+			t := c05mkTest(c05V{v, f}, (succ == 0) != neg)
+			if t.hasNil {
+				t.xs = append(t.xs, f.origins(t.x.v)...)
+			}
+			out = append(out, c05Outcome{t, succ})
+		}
+		// a boolean phi decides per incoming operand; the result of a followed helper per return
+		if phi, ok := v.(*ssa.Phi); ok && (phi.Block() == b || f != fr) {
+			for _, e := range phi.Edges {
+				add(f, e, neg, d+1)
+			}
+		}
+		if call, idx := c05resultOf(c05resolve(v)); call != nil {
+			if k := f.kid(call); k != nil {
+				for _, r := range k.retVals(idx) {
+					add(k, r.val, neg, d+1)
+				}
+			}
+		}
+	}
+	add(fr, ifi.Cond, false, 0)
+	return out
 }
